@@ -61,6 +61,8 @@ def scnStep (op impl : String) : StepOut := Id.run do
   let idleNs : Int := intOf (field op "idle") * 1000000
   let sidleNs : Int := intOf (field op "sidle") * 1000000
   let kaMs := natOf (field op "ka")
+  let vm := natOf (field op "vm")
+  let pm := natOf (field op "pm")
   if impl == "skip" then return { model := "skip" }
   if impl.startsWith "PANIC" then
     return { model := impl, tags := ["driver-panic"], fails := [("no_panic_on_close", "-", "the scenario panicked inside the driver process")] }
@@ -115,8 +117,12 @@ def scnStep (op impl : String) : StepOut := Id.run do
   -- ---------- leak / routing
   if field impl "leak" ≠ "0" then
     fails := fails ++ [("no_leak", "-", s!"goroutines left in the bubble: {field impl "leaked"}")]
-  if field impl "rt.c" ≠ "0/0" || field impl "rt.s" ≠ "0/0" then
+  -- a Dial that never returned leaves the scenario before the routing tables are read
+  if dial ≠ "BLOCKED" && (field impl "rt.c" ≠ "0/0" || field impl "rt.s" ≠ "0/0") then
     fails := fails ++ [("routing_released", "-", s!"routing entries/reset tokens left: client {field impl "rt.c"} server {field impl "rt.s"}")]
+  -- the transport of a path that was being probed (cause=kaprobe)
+  if field impl "rt.p" ≠ "" && field impl "rt.p" ≠ "0/0" then
+    fails := fails ++ [("routing_released", "-", s!"routing entries/reset tokens left on the probed path's transport: {field impl "rt.p"}")]
   let setupRace := field impl "pre" == "0" && cause ≠ "idle" && (cC == "idle" || sC == "idle")
   if field impl "pre" == "0" && !setupRace then
     fails := fails ++ [("blocked_calls_block", "-", "a call returned before the connection ended")]
@@ -158,7 +164,7 @@ def scnStep (op impl : String) : StepOut := Id.run do
       -- the server never saw the client's Finished: it is told by the Initial/Handshake CONNECTION_CLOSE or times out
       if isRemote sC = false && sC ≠ "noconn" && sC ≠ "idle" && sC ≠ "hstimeout" && sC ≠ "" then
         fails := fails ++ [("peer_informed_iff_due", "-", s!"client closed while completing the handshake; server cause {sC}")]
-    | "capp" | "kalive" =>
+    | "capp" | "kalive" | "kaprobe" =>
       fails := fails ++ expect "client" cC s!"app:{code}:l"
       if sC ≠ "noconn" && sC ≠ "" then
         let ok := sC == s!"app:{code}:r" || (timing == 0 && sC == s!"tr:{Uquic.Model.Close.applicationErrorErrorCode}:r") || (drop > 0 && sC == "idle")
@@ -191,18 +197,33 @@ def scnStep (op impl : String) : StepOut := Id.run do
         fails := fails ++ expect "server" sC "tclosed" ++ expect "client" cC "idle"
       else if cC ≠ "idle" && cC ≠ "hstimeout" && cC ≠ "tr:2:r" then
         fails := fails ++ [("context_cause_matches", "-", s!"server transport closed during the handshake; client cause {cC}")]
-    | "dialcancel" =>
+    | "dialcancel" | "vn" =>
       fails := fails ++ expect "client" cC s!"app:{code}:l"
     | _ => pure ()
   -- ---------- dial outcomes
   let dialUs : Int := intOf (field impl "dial_us")
-  if dial ≠ "nil" then
+  if dial == "BLOCKED" then
+    -- whatever the cause: Dial has to return (with the connection, the connection's error or the cancellation cause)
+    fails := fails ++ [("dial_returns", "-", s!"Dial had not returned {dialUs} µs after it was called (context cancelled at {field impl "cancel_us"} µs)")]
+  else if dial ≠ "nil" then
     match cause with
     | "dialcancel" =>
       if dial ≠ "ctxcanceled" then
         fails := fails ++ [("context_cause_matches", "-", s!"cancelled dial returned {dial}")]
       if field impl "dial_us" ≠ field impl "cancel_us" then
         fails := fails ++ [("prompt_return", "-", s!"dial returned at {dialUs} µs, cancelled at {field impl "cancel_us"} µs")]
+    | "vn" =>
+      -- version negotiation by itself never fails the dial (both ends speak QUIC v1): only a cancellation does
+      let cancelUs : Int := intOf (field impl "cancel_us")
+      if vm == 2 || field impl "cancel_us" == "" then
+        fails := fails ++ [("handshake_completes", "-", s!"dial through version negotiation failed with {dial} without being cancelled")]
+      else
+        if dial ≠ "ctxcanceled" then
+          fails := fails ++ [("context_cause_matches", "-", s!"cancelled dial returned {dial}")]
+        -- vm=0 cancels on the run loop's way out and holds that goroutine for 1 ms (vnHold): Dial waits for it
+        let hold : Int := if vm == 0 then 1000 else 0
+        if dialUs < cancelUs || dialUs > cancelUs + hold then
+          fails := fails ++ [("prompt_return", "-", s!"dial returned at {dialUs} µs, cancelled at {cancelUs} µs")]
     | "hsdead" =>
       -- no packet was ever received: the handshake idle timeout (configured = `idle`) ends the dial
       if dial ≠ "idle" then fails := fails ++ [("context_cause_matches", "-", s!"dead path during the handshake: dial returned {dial}")]
@@ -225,7 +246,7 @@ def scnStep (op impl : String) : StepOut := Id.run do
     let cl := intOf (field impl "c.lat_us")
     let sl := intOf (field impl "s.lat_us")
     match cause with
-    | "capp" | "kalive" | "tclosec" =>
+    | "capp" | "kalive" | "kaprobe" | "tclosec" =>
       if cl ≠ 0 then fails := fails ++ [("prompt_return", "-", s!"local close took {cl} µs")]
       if cause ≠ "tclosec" && drop == 0 && sC == s!"app:{code}:r" && sl > rttUs / 2 + 1000 then
         fails := fails ++ [("prompt_return", "-", s!"peer learnt of the close after {sl} µs (one-way delay {rttUs / 2} µs)")]
@@ -236,11 +257,18 @@ def scnStep (op impl : String) : StepOut := Id.run do
         fails := fails ++ [("prompt_return", "-", s!"peer learnt of the close after {cl} µs (one-way delay {rttUs / 2} µs)")]
     | _ => pure ()
   -- ---------- keep-alive
-  if cause == "kalive" && dial == "nil" && field impl "alive" ≠ "1" then
-    fails := fails ++ [("no_idle_close_while_keepalive_answered", "-", s!"connection ended ({cC}/{sC}) although keep-alives every {kaMs} ms were being answered")]
+  if (cause == "kalive" || cause == "kaprobe") && dial == "nil" && field impl "alive" ≠ "1" then
+    let what := if cause == "kaprobe" then s!" (while the client probed a second path that is dead, pm={pm})" else ""
+    fails := fails ++ [("no_idle_close_while_keepalive_answered", "-", s!"connection ended ({cC}/{sC}) although keep-alives every {kaMs} ms were being answered{what}")]
+  -- probing a dead path neither succeeds nor is refused
+  if cause == "kaprobe" && dial == "nil" && field impl "addpath" ≠ "" && field impl "addpath" ≠ "nil" then
+    fails := fails ++ [("handshake_completes", "-", s!"AddPath failed on an established connection: {field impl "addpath"}")]
   let tags := [s!"cause:{cause}", s!"timing:{timing}", s!"c:{(cC.splitOn ":").headD ""}", s!"s:{(sC.splitOn ":").headD ""}"]
     ++ (if drop > 0 then ["drop"] else []) ++ (if kaMs > 0 then ["keepalive"] else []) ++ (if dial ≠ "nil" then [s!"dial:{dial}"] else [])
     ++ (if setupRace then ["setup-idle-race"] else [])
+    ++ (if field op "ut" == "1" then ["utransport"] else [])
+    ++ (if cause == "vn" then [s!"vn:mode{vm}", s!"vn:fired{field impl "vnfired"}"] else [])
+    ++ (if cause == "kaprobe" then [s!"probe:pm{pm}", s!"probe:{field impl "probe"}", s!"probe:ka-{field op "kaside"}"] else [])
   return { model := model, tags := tags, fails := fails }
 
 def step (s : OSt) (op impl : String) : OSt × StepOut :=
